@@ -11,12 +11,13 @@ Variable over1 over2 : Z -> V -> V.
 Variable has_prot : Z -> bool.
 Variable mf : Z -> V.
 Variable sf : Z -> V.
+Variable pre : bool.
 Variable reqs : Z -> req.
 
 Notation full := (full V base over1 over2 has_prot).
 Notation step := (step V base over1 over2 has_prot mf sf).
 Notation run := (run V base over1 over2 has_prot mf sf).
-Notation init := (init V base).
+Notation init := (init V base pre).
 Notation alone := (alone V base over1 over2 has_prot mf sf).
 Notation state := (state V).
 Notation tstate := (tstate V).
@@ -40,9 +41,10 @@ Definition tinv (s : state) (t : Z) : Prop :=
   let th := thr s t in
   match tpc th with
   | W_chk1 | W_get1 | W_store1 | W_read1 | G_upd1 | G_upd2 => False
-  | W_readr | W_getr | W_acq => reqs t = RWsdl
-  | W_read2 => reqs t = RWsdl /\ wlock s = Some t
-  | W_build => reqs t = RWsdl /\ wlock s = Some t /\ app_wsdl s = None
+  | W_readr | W_getr => reqs t = RWsdl
+  | W_acq => reqs t = RWsdl /\ pre = false
+  | W_read2 => reqs t = RWsdl /\ wlock s = Some t /\ pre = false
+  | W_build => reqs t = RWsdl /\ wlock s = Some t /\ app_wsdl s = None /\ pre = false
   | W_bend => reqs t = RWsdl /\ wlock s = Some t /\ app_wsdl s = None /\ gen th = 0
   | W_get2 => reqs t = RWsdl /\ wlock s = Some t /\ app_wsdl s = None /\ b_wsdl s = Some 0
   | W_store2 => reqs t = RWsdl /\ wlock s = Some t /\ app_wsdl s = None /\ lw th = Some 0
@@ -70,11 +72,12 @@ Definition ginv (s : state) : Prop :=
   (b_gen s = 0 \/ b_gen s = 1) /\
   (forall d, b_wsdl s = Some d -> d = 0) /\
   (forall d, app_wsdl s = Some d -> d = 0) /\
-  (b_gen s = 1 -> app_wsdl s = Some 0 \/
+  (b_gen s = 1 -> app_wsdl s = Some 0 \/ pre = true \/
                   match wlock s with Some u => building (tpc (thr s u)) = true | None => False end) /\
   (forall k r, cache s k = Some r -> r < next s /\ heap s r = full k) /\
   (forall k x, memo s k = Some x -> x = mf k) /\
-  (forall k x, scache s k = Some x -> x = sf k).
+  (forall k x, scache s k = Some x -> x = sf k) /\
+  (pre = true -> b_wsdl s = Some 0 /\ b_gen s = 1).
 
 Definition inv (s : state) : Prop := ginv s /\ forall t, tinv s t.
 
@@ -102,7 +105,8 @@ Qed.
 Lemma inv_init : inv (init Repaired reqs).
 Proof.
   split.
-  - unfold ginv. simpl. repeat split; try (intros; discriminate); auto.
+  - unfold ginv. simpl. destruct pre; repeat split; try (intros; discriminate); auto;
+      try (intros d Hd; congruence); try (intros _; right; left; reflexivity).
   - intro t. unfold tinv. simpl. destruct (reqs t) as [| |ok e|e|ks|ks|ks] eqn:Hq; simpl; auto.
     + left. eauto.
     + right. eauto.
@@ -125,21 +129,22 @@ Ltac split_thread t u :=
   destruct (Z.eq_dec t u) as [E|E]; [subst t; rewrite upd_same | ].
 
 
-Ltac gsplit := unfold ginv; simpl; split; [|split; [|split; [|split; [|split; [|split]]]]].
+Ltac gsplit := unfold ginv; simpl; split; [|split; [|split; [|split; [|split; [|split; [|split]]]]]].
 Ltac gbuild Gbuild Hpc u :=
   let Hg := fresh "Hg" in let Ha := fresh "Ha" in let Hb := fresh "Hb" in
   let w := fresh "w" in let E := fresh "E" in let Hwl := fresh "Hwl" in
-  intro Hg; destruct (Gbuild Hg) as [Ha|Hb]; [left; congruence|]; right;
+  let Hpre := fresh "Hpre" in
+  intro Hg; destruct (Gbuild Hg) as [Ha|[Hpre|Hb]]; [left; congruence|right; left; exact Hpre|]; right; right;
   destruct (wlock _) as [w|] eqn:Hwl; [|contradiction];
   destruct (Z.eq_dec w u) as [E|E];
   [ subst w; rewrite Hpc in Hb; discriminate | rewrite upd_other; auto ].
-Ltac gframe Gbuild Hpc u := gsplit; [auto | auto | auto | gbuild Gbuild Hpc u | auto | auto | auto].
+Ltac gframe Gbuild Hpc u := gsplit; [auto | auto | auto | gbuild Gbuild Hpc u | auto | auto | auto | auto].
 
 Lemma step_inv : forall s u s', inv s -> step Repaired reqs s u = Some s' -> inv s'.
 Proof.
   intros s u s' [G T] H.
   pose proof (T u) as Tu. unfold tinv in Tu. unfold step in H.
-  destruct G as (Ggen & Gb & Gapp & Gbuild & Gcache & Gmemo & Gsort).
+  destruct G as (Ggen & Gb & Gapp & Gbuild & Gcache & Gmemo & Gsort & Gpre).
   destruct (tpc (thr s u)) eqn:Hpc; try contradiction.
   - (* W_readr *)
     case_eq (app_wsdl s); [intros d Happ|intros Happ]; rewrite Happ in H; inversion H; subst s'; clear H.
@@ -160,43 +165,50 @@ Proof.
       * intro t. unfold tinv at 1. simpl. split_thread t u.
         -- simpl. rewrite Tu. simpl. now rewrite (Gb d Hb0).
         -- other_thread T t u E.
-    + split.
+    + assert (Hpf : pre = false).
+      { destruct pre eqn:Hp; auto. destruct (Gpre eq_refl) as [Hb1 _]. congruence. }
+      split.
       * gframe Gbuild Hpc u.
       * intro t. unfold tinv at 1. simpl. split_thread t u.
         -- simpl. auto.
         -- other_thread T t u E.
   - (* W_acq *)
+    destruct Tu as (Hq & Hpf).
     destruct (wlock s) as [w|] eqn:Hw; [discriminate|]. inversion H; subst s'; clear H.
     split.
-    + gsplit; auto; try (intro Hg; destruct (Gbuild Hg) as [|Hb]; auto; contradiction).
+    + gsplit; auto.
+      intro Hg; destruct (Gbuild Hg) as [Ha|[Hp|Hb]]; auto; contradiction.
     + intro t. unfold tinv at 1. simpl. split_thread t u.
       * simpl. auto.
       * other_thread T t u E.
   - (* W_read2 *)
-    destruct Tu as (Hq & Hw).
+    destruct Tu as (Hq & Hw & Hpf).
     inversion H; subst s'; clear H. split.
     + gsplit; auto.
-      intro Hg. destruct (Gbuild Hg) as [|Hb]; auto.
+      intro Hg. destruct (Gbuild Hg) as [Ha|[Hp|Hb]]; auto.
       rewrite Hw in Hb. rewrite Hpc in Hb. discriminate.
     + intro t. unfold tinv at 1. simpl. split_thread t u.
       * case_eq (app_wsdl s); [intros d Happ|intros Happ]; simpl; auto.
         rewrite (Gapp d Happ) in *. auto.
       * other_thread T t u E.
   - (* W_build *)
-    destruct Tu as (Hq & Hw & Happ).
+    destruct Tu as (Hq & Hw & Happ & Hpf).
     assert (Hg0 : b_gen s = 0).
-    { destruct Ggen as [|Hg]; auto. destruct (Gbuild Hg) as [Ha|Hb]; [congruence|].
+    { destruct Ggen as [|Hg]; auto. destruct (Gbuild Hg) as [Ha|[Hp|Hb]]; [congruence|congruence|].
       rewrite Hw, Hpc in Hb. discriminate. }
     inversion H; subst s'; clear H. split.
     + gsplit; auto; try lia.
-      intros _. right. rewrite Hw. now rewrite upd_same.
+      * intros _. right. right. rewrite Hw. now rewrite upd_same.
+      * intro Hp. congruence.
     + intro t. unfold tinv at 1. simpl. split_thread t u.
       * simpl. auto.
       * other_thread T t u E.
   - (* W_bend *)
     destruct Tu as (Hq & Hw & Happ & Hgen).
     inversion H; subst s'; clear H. split.
-    + gsplit; auto; try (intros d Hd; congruence); try (intros _; right; rewrite Hw; now rewrite upd_same).
+    + gsplit; auto; try (intros d Hd; congruence);
+        try (intros _; right; right; rewrite Hw; now rewrite upd_same).
+      intro Hp. destruct (Gpre Hp) as [Hb1 Hg1]. split; auto. simpl. congruence.
     + intro t. unfold tinv at 1. simpl. split_thread t u.
       * simpl. rewrite Hgen. auto.
       * other_thread T t u E.
@@ -204,7 +216,7 @@ Proof.
     destruct Tu as (Hq & Hw & Happ & Hb).
     inversion H; subst s'; clear H. split.
     + gsplit; auto.
-      intros _. right. rewrite Hw. now rewrite upd_same.
+      intros _. right. right. rewrite Hw. now rewrite upd_same.
     + intro t. unfold tinv at 1. simpl. split_thread t u.
       * simpl. auto.
       * other_thread T t u E.
